@@ -318,6 +318,58 @@ def clause5(P, res):
         res.violated(rid, "cost-additions", f"expected >= 12 cost additions / loop-published totals, found {n}")
 
 
+def clause6(P, res):
+    rid = "C13-6"
+    res.rule(rid, "a wholesale reset of current_cost (store of the constant 0) happens while every shard is write-locked: the shard maps are cleared through a collection of "
+                  "write guards (one per shard) that is still alive at the store — resetting the gauge after the shards were unlocked erases the cost of entries "
+                  "inserted in between, and the capacity pass then stops early")
+    n = 0
+    for b in cl.cache_bodies(P):
+        zero = [z for z in cl.cost_ops(b, {"store"}) if len(z.args) > 1 and (b.const_of_operand(z.args[1]) or {}).get("v") == 0]
+        clears = cl.map_events(b, {"clear", "drain"})
+        if not zero or not clears:
+            continue
+        for z in zero:
+            n += 1
+            key = f"{b.id}:store0"
+            # the guard collection the clears go through
+            colls = set()
+            for r in clears:
+                evs, _, _ = mir.operand_sources(b, r.args[0])
+                for e in evs:
+                    locs = []
+                    if e.kind == "assign" and e.data["r"]["k"] in ("ref", "rawptr"):
+                        locs.append(e.data["r"]["p"][0])
+                    elif e.kind == "call":
+                        locs += [mir.op_place(a)[0] for a in e.args if mir.op_place(a) is not None]
+                    for l in locs:
+                        ty = b.locals[l].get("ty", "")
+                        if ty.startswith("alloc::vec::Vec<") and "WriteGuard<" in ty:
+                            colls.add(l)
+            if not colls:
+                res.violated(rid, key, f"current_cost is reset to 0 at {z.loc} but the shard maps are cleared one guard at a time (no collection holding every shard's write "
+                             "guard): an insert into an already cleared shard completes before the reset and its cost is erased", where=z.loc,
+                             witness=[f"clear {r.loc}" for r in clears])
+                continue
+            bad = None
+            for l in colls:
+                for d in b.events:
+                    if d.kind in ("drop", "dead") and ((d.kind == "drop" and d.data["p"][0] == l and d.data["p"][1] == []) or (d.kind == "dead" and d.data["dead"] == l)):
+                        if z.pos in b.pos_reach_set(d.pos):
+                            bad = d
+                moved = [e for e in b.calls() if any("m" in a and a["m"][0] == l and a["m"][1] == [] for a in e.args)]
+                for m in moved:
+                    if z.pos in b.pos_reach_set(m.pos):
+                        bad = m
+            if bad is not None:
+                res.violated(rid, key, f"current_cost is reset to 0 at {z.loc} after the write guards of the shards were released at {bad.loc}: entries inserted in between "
+                             "stay resident but vanish from the gauge", where=z.loc)
+            else:
+                res.holds(rid, key, f"reset at {z.loc} while `{b.local_name(sorted(colls)[0])}` (all shard write guards) is alive", where=z.loc)
+    if n < 2:
+        res.unclassified(rid, "reset-sites", f"expected the two clear() bodies to reset the gauge, found {n}", where="rules/c13.py")
+
+
 def run(P, ctx):
     res = Result("C13")
     res.extra["explanation"] = ("Cost accounting shapes on the MIR of fibre_cache: removal=>subtract-that-entry's-cost, insert=>add, "
@@ -327,4 +379,5 @@ def run(P, ctx):
     clause3(P, res)
     clause4(P, res)
     clause5(P, res)
+    clause6(P, res)
     return res
